@@ -5,22 +5,53 @@
     source are regenerated into Gen/FsWalk_gen.v on every run and the premises [backend_keys_ok], [walk_ok] (and
     the chain parameters) are discharged for them by kernel-checked instance obligations in checks/c19.py. *)
 From Coq Require Import List NArith Bool Permutation.
-From SV Require Import SM.FsChain SM.FsChainProofs SM.FsChainRel SM.FsChainWitness.
+From SV Require Import SM.FsChain SM.FsChainProofs SM.FsChainRel SM.FsChainWitness SM.FsChainRaw.
 Import ListNotations.
 Open Scope N_scope.
 
 (** ** Lookup: every backend with recognised key functions implements one specification map. *)
 
-(** Two backends given the same files agree on _get_file, _file_exists and open_bin for every query spelling
-    (that normpath leaves alone), and all equal the specification map (folded name -> last stored file). *)
+(** Today's source: every query function converts the slashes, normalises the path and folds the case
+    ([backend_keys_norm]).  Then two backends given the same files agree on _get_file, _file_exists and open_bin for
+    *every* query string, and all equal the specification map (folded name -> last stored file) at the normalised
+    query: redundant separators, "." and ".." segments, either slash and letter case are all insignificant. *)
+Theorem c19_lookup_agree_all : forall b1 b2 fs q,
+  backend_keys_norm b1 = true -> backend_keys_norm b2 = true -> clean_fs fs = true ->
+  lookup b1 fs q = lookup b2 fs q
+  /\ exists_ b1 fs q = exists_ b2 fs q
+  /\ open_ b1 fs q = open_ b2 fs q
+  /\ open_ b1 fs q = lookup b1 fs q
+  /\ lookup b1 fs q = spec_lookup fs (normpath (slash q))
+  /\ exists_ b1 fs q = match spec_lookup fs (normpath (slash q)) with Some _ => true | None => false end.
+Proof. exact lookup_agree_all. Qed.
+
+(** Any recognised form (with or without normpath, before or after the slash conversion): for every query, the file
+    served is the specification's file for the query as that backend pre-normalises it. *)
+Theorem c19_lookup_norm : forall b fs q,
+  store_ops_ok (b_store b) = true -> key_ops_ok (b_get b) = true -> clean_fs fs = true ->
+  lookup b fs q = spec_lookup fs (prenorm (norm_kind (b_get b)) q).
+Proof. exact lookup_norm. Qed.
+
+(** Hence backends of different recognised forms (the pinned tree: Virtual normalised on '/' only, Zip and VPK not at
+    all) still agree on every query that normpath leaves alone, with either slash. *)
 Theorem c19_lookup_agree : forall b1 b2 fs q,
-  backend_keys_ok b1 = true -> backend_keys_ok b2 = true -> clean_fs fs = true -> normpath q = q ->
+  backend_keys_ok b1 = true -> backend_keys_ok b2 = true -> clean_fs fs = true -> stable q ->
   lookup b1 fs q = lookup b2 fs q
   /\ exists_ b1 fs q = exists_ b2 fs q
   /\ open_ b1 fs q = open_ b2 fs q
   /\ open_ b1 fs q = lookup b1 fs q
   /\ lookup b1 fs q = spec_lookup fs q.
 Proof. exact lookup_agree. Qed.
+
+(** ... but not on the others: the forms of the pinned tree disagree on "./x", and the pinned Virtual form
+    distinguishes the two slashes (".\\x" is not found although "./x" is). *)
+Theorem c19_lookup_unnormalised_refuted :
+  let fs := [([120], [1])] in
+  lookup pinned_virtual fs [46; 47; 120] = Some ([120], [1]) /\ lookup pinned_zip fs [46; 47; 120] = None
+  /\ lookup pinned_vpk fs [46; 47; 120] = None /\ lookup pinned_virtual fs [46; 92; 120] = None
+  /\ backend_keys_norm pinned_virtual = false /\ backend_keys_norm pinned_zip = false
+  /\ backend_keys_norm fixed_virtual = true /\ lookup fixed_virtual fs [46; 92; 120] = Some ([120], [1]).
+Proof. exact lookup_unnormalised_refuted. Qed.
 
 (** Letter case and the two slash characters are insignificant in a query. *)
 Theorem c19_lookup_case_slash_insensitive : forall fs q q', nkey q = nkey q' -> spec_lookup fs q = spec_lookup fs q'.
@@ -52,6 +83,36 @@ Theorem c19_raw_agree : forall fs e,
   clean_fs fs = true -> NoDup (map (fun e => nkey (fst e)) fs) -> In e fs ->
   raw_lookup fs (fst e) = Some e /\ spec_lookup fs (fst e) = Some e.
 Proof. exact raw_lookup_agree. Qed.
+
+(** The directory backend as translated (the name goes through [ops], then abspath): a query that - slashes converted,
+    redundant parts removed - is the exact stored name finds that file in the directory backend and in every folding
+    backend of today's form. *)
+Theorem c19_raw_agrees_with_folded : forall b ops fs e q,
+  backend_keys_norm b = true -> raw_ops_ok ops = true -> clean_fs fs = true ->
+  NoDup (map (fun e => nkey (fst e)) fs) -> In e fs -> normpath (slash q) = fst e ->
+  raw_lookup_ops ops fs q = Some e /\ lookup b fs q = Some e /\ exists_ b fs q = true /\ open_ b fs q = Some e.
+Proof. exact raw_agrees_with_folded. Qed.
+(** Its walk lists exactly the stored files below the normalised folder (the empty folder: all), and every listed
+    name looks up to that file. *)
+Theorem c19_raw_walk_exact : forall ops fs folder e,
+  In e (raw_walk ops fs folder) <-> In e fs /\ path_prefix (raw_folder ops folder) (fst e).
+Proof. exact raw_walk_exact. Qed.
+Theorem c19_raw_walk_root : forall ops fs, raw_ops_ok ops = true -> raw_walk ops fs [] = fs.
+Proof. exact raw_walk_root. Qed.
+Theorem c19_raw_walk_lookup_closed : forall ops ops' fs folder e,
+  raw_ops_ok ops = true -> clean_fs fs = true -> NoDup (map (fun e => nkey (fst e)) fs) ->
+  In e (raw_walk ops' fs folder) -> raw_lookup_ops ops fs (fst e) = Some e.
+Proof. exact raw_walk_lookup_closed. Qed.
+(** Without the conversion (the pinned tree) a backslashed exact-case name is not found. *)
+Example c19_raw_examples :
+  let fs := [([115; 47; 120], [1]); ([116], [2])] in
+  raw_ops_ok [OSlash] = true
+  /\ raw_lookup_ops [OSlash] fs [115; 92; 120] = Some ([115; 47; 120], [1])
+  /\ raw_lookup_ops [] fs [115; 92; 120] = None
+  /\ raw_lookup_ops [OSlash] fs [46; 92; 115; 47; 47; 120] = Some ([115; 47; 120], [1])
+  /\ raw_walk [OSlash] fs [46; 47; 115; 92] = [([115; 47; 120], [1])]
+  /\ raw_walk [OSlash] fs [46] = fs.
+Proof. exact raw_examples. Qed.
 
 (** ** walk_folder *)
 
